@@ -32,6 +32,10 @@ theorem stepD_slot (s : KL) (x : Act) (hm : s.main = false) :
   | ok st => simp [KL.set]
   | error e => rfl
 
+theorem stepD_of_error {s : KL} {x : Act} {e : Err} (h : kstep s.main (s.slot x.key) x.act = .error e) :
+    stepD s x = s := by
+  simp [stepD, step, h]
+
 theorem ginv_stepD {s : KL} (x : Act) (h : GInv s) : GInv (stepD s x) := by
   refine ⟨by rw [stepD_main]; exact h.1, fun k => ?_⟩
   by_cases hk : k = x.key
